@@ -495,6 +495,23 @@ func runReqCase(c reqCase) (obs reqObs) {
 			release("ok")
 			passGates(6 * time.Millisecond)
 			barrier()
+			if e.At == "idle" && !wedged {
+				// "idle": the request's executor is not running (the request is paused or over).  On a slow machine the executor
+				// may still be on its way out: wait until the request has left the active set of the task queue
+				for t := time.Now(); time.Since(t) < time.Second; time.Sleep(time.Millisecond) {
+					active := false
+					for _, id := range gsA.PeerState(pB).OutgoingState.TaskQueueState.Active {
+						if id == reqID {
+							active = true
+						}
+					}
+					if !active {
+						break
+					}
+					passGates(time.Millisecond)
+				}
+				barrier()
+			}
 		}
 		if obs.Desync != "" || wedged {
 			break
